@@ -1,7 +1,7 @@
 """C05 – outbound messages are numbered consecutively and journaled under that number.  DESIGN.md §6 C05.
 
 proof:  Props/C05.lean (OutInv preserved by every event / history; send_numbered; refused_send_unchanged;
-        refusal_complete; encoding_refusal; new_messages_consecutive; new_messages_journaled_partial;
+        refusal_complete; encoding_refusal; new_messages_consecutive; new_messages_journaled;
         new_messages_readback)
 tie:    Session model (`sess.*`) vs the REAL AsyncFIXConnection (harness/sess_common.py):
         (a) the send slice of the exhaustive single-step table – every state x role x every message type an
@@ -538,13 +538,11 @@ def oracle_history(impl, start, events):
             continue
         later = [r for r in resends if r[0] >= step]
         gapish = row is None or fget(row, 35) == "4"
-        allowed = fget(orig, 35) in SESSION_TYPES or any(declines(r[3], n) for r in later if r[1] <= n)
+        covering = [r for r in later if r[1] <= n and (r[2] == 0 or n <= r[2])]  # requests that asked for n
+        allowed = bool(covering) and (fget(orig, 35) in SESSION_TYPES or any(declines(r[3], n) for r in covering))
         if gapish and allowed:
             continue
-        d9 = [r for r in later if r[2] != 0 and (n > r[2] or r[2] < r[1]) and r[1] <= max(n, r[1])]
-        if gapish and d9:
-            sig = "C05-D9-bounded-resend-deletes-rows"
-        elif own_seen is not None:
+        if own_seen is not None:
             sig = "C05-app-own-number"
         else:
             sig = "C05-journal-lost-row"
@@ -558,6 +556,7 @@ WITNESS_START = dict(state=17, role=1, sender="INIT", target="ACPT", next_in=7, 
 
 
 def witness_d9():
+    """former finding D9 (repaired by da179c4): kept as a regression history"""
     a = S.with_journal(S.AbsConn(**WITNESS_START), "empty")
     ev = [("all", ("send", S.T0, ("D", [(11, "one")]))), ("all", ("send", S.T0, ("D", [(11, "two")]))),
           ("all", ("recv", S.T0 + 125, S.inbound(a, "2", [(7, "42"), (16, "42")], seq=7, now_ms=S.T0 + 125)))]
@@ -592,13 +591,14 @@ def oracle(ctx, disagreements, broken):
                     ev = parse_event_tokens(inp["event"])
                     failures += oracle_history(impl, a, [(inp["sr"], ev)])
             n_hist += 1
-        # 3. generated histories: clean stream (no own-number sends, no bounded resends: any failure is new),
-        #    and a stream with both (failures must carry the known signatures)
+        # 3. generated histories: clean stream (no own-number sends: any failure is new; ResendRequests of
+        #    every shape incl. bounded / inverted ranges), and a stream with own-number sends (failures must
+        #    carry the known signature)
         budget = ctx.n(400, 1500) * (4 if broken else 1)
         max_len = ctx.n(30, 60)
         for k in range(budget):
-            own = d9 = (k % 4 == 3)
-            start, steps = gen_history(ctx.rng, impl, max_len, own, d9)
+            own = (k % 4 == 3)
+            start, steps = gen_history(ctx.rng, impl, max_len, own, True)
             evs = [(s[0], s[1]) for s in steps]
             failures += oracle_history(impl, start, evs)
             n_hist += 1
